@@ -214,7 +214,7 @@ MAssignRaw(S, j, rhas, raw0, rawd0, u) ==
       raw  == IF rhas THEN raw0 ELSE n.val
       rawd == IF rhas THEN rawd0 ELSE VDepth(n.dtype, n.shape)
       cut  == IF n.lsl # <<>> THEN LeftCut(n, raw, rawd) ELSE [ok |-> TRUE, v |-> raw]
-      S1   == IF n.lsl # <<>> THEN Tag([S EXCEPT !.nodes[j].lsl = Tail(@)], {"slice_multi", "host_reused"}) ELSE S
+      S1   == IF n.lsl # <<>> THEN Tag([S EXCEPT !.nodes[j].lsl = Tail(@)], {"slice_multi.host_reused"}) ELSE S
   IN
   IF n.const THEN Rej(S)                                            \* checked in DIP.parse before modify_value
   ELSE IF ~rhas /\ ~n.has THEN Rej(S)                               \* None.copy()
@@ -235,10 +235,10 @@ MRequest(S, snap, md, src, qk, q) ==
   ELSE [ok |-> TRUE, sel |-> Select(S.nodes, qk, q)]
 
 \* why the raw text and the current value of the referenced node differ
-RawTags(r) == (IF ~r.rhas /\ r.has THEN {"source_declared"} ELSE {})
+RawTags(r) == (IF ~r.rhas /\ r.has THEN {"inject.source_declared"} ELSE {})
          \cup (IF r.rhas /\ r.has /\ ToString(r.raw) # ToString(r.val)
-               THEN (IF r.modified THEN {"source_modified_before"} ELSE {})
-                    \cup (IF r.sliced THEN {"source_defined_by_slice"} ELSE {})
+               THEN (IF r.modified THEN {"inject.source_modified_before"} ELSE {})
+                    \cup (IF r.sliced THEN {"inject.source_defined_by_slice"} ELSE {})
                ELSE {})
 
 \* BaseNode.inject_value + set_value/cast_value (definition) or modify_value (modification)
@@ -258,7 +258,7 @@ MInject(S, snap, md, ln) ==
        ELSE IF ~r.rhas                                              \* value_raw None: set_value() leaves the value None
        THEN [S1 EXCEPT !.nodes = Append(@, MNode(ln.host, ln.dtype, ln.shape, FALSE, 0, u, FALSE, FALSE,
                                                  FALSE, 0, 0, ref, lsl, ln.sl # <<>>))]
-       ELSE IF ln.sl # <<>> /\ r.dtype = "str" THEN Tag(Rej(S1), {"slice", "string"})   \* json.loads(text) raises
+       ELSE IF ln.sl # <<>> /\ r.dtype = "str" THEN Tag(Rej(S1), {"inject.slice_string"})   \* json.loads(text) raises
        ELSE LET res == MSlice(r.raw, r.rawd, ln.sl) IN
             IF ~res.ok THEN Rej(S1)
             ELSE IF ResShape(r.dtype, res) # ln.shape THEN Rej(S1)  \* dimension check / "Array value set to scalar node"
@@ -267,7 +267,7 @@ MInject(S, snap, md, ln) ==
                                                       TRUE, r.raw, r.rawd, ref, lsl, ln.sl # <<>>))]
   ELSE \* a modification `host = {ref}[slice] unit`
        IF ~r.rhas THEN MAssignRaw(S1, Find(S1.nodes, ln.host), FALSE, 0, 0, u)  \* set_value() skipped on the mod node
-       ELSE IF ln.sl # <<>> THEN Tag(Rej(S1), {"slice", "host_is_modification"})
+       ELSE IF ln.sl # <<>> THEN Tag(Rej(S1), {"inject.slice_host_is_modification"})
             \* the mod node casts its own slice with dtype str and raises unless one element is left; the target
             \* then casts the WHOLE raw text (its own value_slice, not the modifier's, is looked at)
        ELSE MAssignRaw(S1, Find(S1.nodes, ln.host), TRUE, r.raw, r.rawd, u)
@@ -283,18 +283,18 @@ MImpFold(S, snap, md, sel, host) ==
       rq == IF c.ref.qk = "" THEN [ok |-> TRUE, sel |-> <<1>>] ELSE MRequest(S, snap, md, c.ref.src, c.ref.qk, c.ref.q)
       j  == Find(S.nodes, p)
   IN
-  IF ~rq.ok \/ Len(rq.sel) # 1 THEN Tag(Rej(S), {"node_defined_by_injection"})
+  IF ~rq.ok \/ Len(rq.sel) # 1 THEN Tag(Rej(S), {"import.node_defined_by_injection"})
   ELSE IF c.lsl # <<>> /\ c.rhas /\ ~LeftCut(c, c.val, VDepth(c.dtype, c.shape)).ok
-       THEN Tag(Rej(S), {"slice_multi", "host_reused"})             \* set_value() -> cast_value() slices the value again
+       THEN Tag(Rej(S), {"slice_multi.host_reused"})             \* set_value() -> cast_value() slices the value again
   ELSE IF j # 0
        THEN IF c.dtype # S.nodes[j].dtype THEN Rej(S)
-            ELSE MImpFold(Tag(MAssignRaw(S, j, c.rhas, c.raw, c.rawd, c.unit), {"target_exists"}),
+            ELSE MImpFold(Tag(MAssignRaw(S, j, c.rhas, c.raw, c.rawd, c.unit), {"import.target_exists"}),
                           snap, md, Tail(sel), host)
        ELSE LET c1 == IF c.rhas THEN [c EXCEPT !.path = p,              \* set_value(): cast_value() of the CURRENT value
                                                  !.val = IF c.lsl # <<>> THEN LeftCut(c, c.val, VDepth(c.dtype, c.shape)).v ELSE c.val,
                                                  !.lsl = IF c.lsl # <<>> THEN Tail(c.lsl) ELSE <<>>]
                       ELSE [c EXCEPT !.path = p, !.has = FALSE]      \* value_raw None -> value None
-                S1 == IF ~c.rhas /\ c.has THEN Tag(S, {"source_declared"}) ELSE S
+                S1 == IF ~c.rhas /\ c.has THEN Tag(S, {"import.source_declared"}) ELSE S
             IN MImpFold([S1 EXCEPT !.nodes = Append(@, c1)], snap, md, Tail(sel), host)
 
 MImport(S, snap, md, ln) ==
@@ -303,7 +303,7 @@ MImport(S, snap, md, ln) ==
   ELSE IF rq.sel = <<>>
        \* nothing is re-queued: the import node itself reaches set_value() and is appended with value None
        THEN Tag([S EXCEPT !.nodes = Append(@, MNode(ln.host \o <<"{import}">>, "import", <<>>, FALSE, 0, "", FALSE, FALSE,
-                                                    FALSE, 0, 0, NoRef, <<>>, FALSE))], {"selects_none"})
+                                                    FALSE, 0, 0, NoRef, <<>>, FALSE))], {"import.selects_none"})
   ELSE MImpFold(S, snap, md, rq.sel, ln.host)
 
 \* end of DIP.parse: "Node value must be defined" for declarations; a value None elsewhere survives and
